@@ -4,15 +4,16 @@
 # checks of the given properties on it with a scratch verification directory; /repo and /verif/evidence stay untouched.
 set -u
 patch=$1; props=$2
+REPO=${REPO:-/repo}; VERIF=${VERIF:-/verif}; GOVC=${GOVC:-$VERIF/bin/govc}
 export GOFLAGS=-mod=mod GOPROXY=off GOSUMDB=off GOTOOLCHAIN=local
 tmp=$(mktemp -d /tmp/scratchrun-XXXX)
 trap 'rm -rf $tmp' EXIT
 mkdir -p $tmp/verif
-rsync -a --exclude .git /repo/ $tmp/repo/
+rsync -a --exclude .git $REPO/ $tmp/repo/
 (cd $tmp/repo && patch -p1 -s -i $patch) || { echo "PATCH DOES NOT APPLY"; exit 1; }
 (cd $tmp/repo && go build ./... ) || { echo "DOES NOT BUILD"; exit 1; }
-for d in spec harness; do rsync -a /verif/$d/ $tmp/verif/$d/; done
-cp /verif/obligations.baseline.json /verif/names.baseline.json /verif/known_findings.json $tmp/verif/
+for d in spec harness; do rsync -a $VERIF/$d/ $tmp/verif/$d/; done
+cp $VERIF/obligations.baseline.json $VERIF/names.baseline.json $VERIF/known_findings.json $tmp/verif/
 for p in $props; do
-  GOVC_MUTANT=${GOVC_MUTANT-1} /verif/bin/govc check -repo $tmp/repo -verif $tmp/verif -property $p -tier quick 2>&1 | grep -E 'VIOLATION|^property |govc: engine' | sed 's/replay=[^ ]* //' | cut -c1-260
+  GOVC_MUTANT=${GOVC_MUTANT-1} $GOVC check -repo $tmp/repo -verif $tmp/verif -property $p -tier quick 2>&1 | grep -E 'VIOLATION|^property |govc: engine' | sed 's/replay=[^ ]* //' | cut -c1-260
 done
